@@ -143,6 +143,8 @@ structure Tables where
   readWrapsBatchValidation : Bool
   /-- `_read_request` turns any failure while materialising names / values into `RpcError("ProtocolError")` -/
   readWrapsKwargs : Bool
+  /-- `_read_request` turns a request stream without any batch (`StopIteration`) into `RpcError("ProtocolError")` -/
+  readWrapsEmptyStream : Bool
   /-- `_set_http_status` -/
   translatedStatus : Nat
   translatedTo : Nat
